@@ -79,6 +79,7 @@ def build(lean_targets, need_go=True, log=print):
             gen = os.path.join(LEAN, "Orda", "Gen", "Generated.lean")
             rc, out = sh([gf, "-repo", REPO, "-out", gen + ".new", "-props", os.path.join(VERIF, "properties.jsonl"),
                           "-shape-out", os.path.join(LEAN, "Orda", "Gen", "Shape.lean"),
+                          "-facts2-out", os.path.join(LEAN, "Orda", "Gen", "Facts2.lean"),
                           "-shape-json", os.path.join(WORK, "shape.json")], env=GOENV)
             if rc != 0:
                 res.gofacts_ok, res.gofacts_msg = False, out
